@@ -151,6 +151,11 @@ func GetPageSize(r *http.Request, opts ...func(*pageSizeConfiguration)) (uint64,
 		}
 	}
 
+	if pageSize == 0 {
+		// a page of zero items can never make progress: following its 'next' cursor would never end
+		return cfg.defaultPageSize, nil
+	}
+
 	if pageSize > cfg.maxPageSize {
 		return cfg.maxPageSize, nil
 	}
